@@ -42,6 +42,9 @@ class Check(HCheck):
             al.create(Ax),
             al.rmprefix(Aw),
             al.delete(0),
+            # link-bearing sources with 3-block stems, reached by a sibling hop when shorter
+            # siblings were inserted first (bases R4 / R2) and by a child hop otherwise
+            al.links((A + L.long_stem(149), Ax), (Ab, A + L.long_stem(149)), (A + L.long_stem(150, b"\xff"), Ab)),
         ]
         d = 4 if thorough else 3
         return [
